@@ -265,10 +265,31 @@ def run_impl(module, func, cases, jobs=None, timeout_case=30, env_extra=None, ch
                                  stdout=subprocess.PIPE, stderr=subprocess.STDOUT, text=True)
             procs.append((k, idxs, outp, p))
         results = [None] * n
+
+        def start(k, idxs):
+            inp = os.path.join(tmpdir, "in%d.json" % k)
+            outp = os.path.join(tmpdir, "out%d.json" % k)
+            if os.path.exists(outp):
+                os.unlink(outp)
+            return subprocess.Popen([PY, "-m", "harness.worker", module, func, inp, outp, str(timeout_case)],
+                                    cwd=str(VERIF), env=impl_env(env_extra, home=os.path.join(tmpdir, "home%d" % k)),
+                                    stdout=subprocess.PIPE, stderr=subprocess.STDOUT, text=True)
+
         for k, idxs, outp, p in procs:
-            out, _ = p.communicate(timeout=timeout_case * (len(idxs) + 5) + 120)
-            if p.returncode != 0 or not os.path.exists(outp):
-                raise RuntimeError("implementation worker failed (rc=%s):\n%s" % (p.returncode, out[-3000:]))
+            # A worker that dies (killed, out of memory, interpreter crash) is infrastructure, not a
+            # verdict: the cases themselves are guarded inside the worker.  Retry the chunk once.
+            for attempt in (1, 2):
+                try:
+                    out, _ = p.communicate(timeout=timeout_case * (len(idxs) + 5) + 120)
+                except subprocess.TimeoutExpired:
+                    p.kill()
+                    out, _ = p.communicate()
+                if p.returncode == 0 and os.path.exists(outp):
+                    break
+                if attempt == 2:
+                    raise RuntimeError("implementation worker failed twice (rc=%s):\n%s" % (p.returncode, out[-3000:]))
+                sys.stderr.write("implementation worker %d died (rc=%s); retrying once\n" % (k, p.returncode))
+                p = start(k, idxs)
             with open(outp) as f:
                 rs = json.load(f)
             for i, r in zip(idxs, rs):
